@@ -971,6 +971,14 @@ func sequenceFacts() {
 	}
 	iPut := strings.Index(b, "batch.Put(putReq.Key, ser)")
 	iUpd := strings.Index(b, "d.sequenceWaiterTracker.SequenceUpdated(")
+	gs := funcDecl(f, "db", "GetSequenceUpdates")
+	gb := ""
+	if gs != nil {
+		gb = squash(src(gs.Body))
+	}
+	add("sequenceSubscriptionInitialValueDoesNotOverride", "Bool", boolLean(
+		strings.Contains(gb, "select { case sw.och.Ch() <- it.Key(): default: }") && !strings.Contains(gb, "WriteLast(")),
+		"server/kv/db.go: (*db).GetSequenceUpdates", "the key read from the committed state is offered to the channel without replacing a value that is already there")
 	add("sequenceUpdateOnlyOnSuccess", "Bool", boolLean(
 		iPut >= 0 && iUpd > iPut && strings.Count(b, "SequenceUpdated(") == 1 &&
 			strings.Contains(b, "if newKey != \"\" { d.sequenceWaiterTracker.SequenceUpdated(sequencePrefixKey, newKey) }")),
